@@ -12,14 +12,21 @@ import (
 func New() *Handler {
 	return &Handler{
 		m:        new(sync.Mutex),
-		requests: map[int64]chan event{},
+		requests: map[int64]client{},
 	}
 }
 
 type Handler struct {
 	m        *sync.Mutex
 	counter  int64
-	requests map[int64]chan event
+	requests map[int64]client
+}
+
+// client is a connected browser. The done channel is closed when the client
+// disconnects, so that deliveries that are still pending can be dropped.
+type client struct {
+	events chan event
+	done   chan struct{}
 }
 
 type event struct {
@@ -31,15 +38,19 @@ type event struct {
 func (s *Handler) Send(eventType string, data string) {
 	s.m.Lock()
 	defer s.m.Unlock()
-	for _, f := range s.requests {
-		f := f
-		go func(f chan event) {
+	for _, c := range s.requests {
+		c := c
+		go func(c client) {
 			verifBeforeDeliver()
-			f <- event{
+			select {
+			case c.events <- event{
 				Type: eventType,
 				Data: data,
+			}:
+			case <-c.done:
+				// The client disconnected before the event could be delivered.
 			}
-		}(f)
+		}(c)
 	}
 }
 
@@ -53,13 +64,14 @@ func (s *Handler) ServeHTTP(w http.ResponseWriter, r *http.Request) {
 	id := atomic.AddInt64(&s.counter, 1)
 	s.m.Lock()
 	events := make(chan event)
-	s.requests[id] = events
+	done := make(chan struct{})
+	s.requests[id] = client{events: events, done: done}
 	s.m.Unlock()
 	defer func() {
 		s.m.Lock()
 		defer s.m.Unlock()
 		delete(s.requests, id)
-		close(events)
+		close(done)
 	}()
 
 	timer := time.NewTimer(0)
